@@ -246,22 +246,14 @@ package document
 //@ requires docParts(doc) && mediaFresh(doc) && imageData != nil
 //@ ensures err != nil ==> result0 == nil && unchangedHeap()
 //@ ensures err == nil ==> fresh(result0) && len(result0.Runs) == 1 && docParts(doc) && doc.Body == old(doc.Body) && len(doc.Body.Elements) == old(len(doc.Body.Elements))
-//@ ensures err == nil && old(len(imageData.Data)) > 0 ==> doc.nextImageID == old(doc.nextImageID) + 1 && mediaFresh(doc)
-//@ ensures err == nil && old(len(imageData.Data)) == 0 ==> doc.nextImageID == old(doc.nextImageID) + 1 && mediaFresh(doc)
-//@ ensures err == nil && old(len(imageData.Data)) > 0 ==> doc.parts == old(doc.parts) && doc.documentRelationships == old(doc.documentRelationships) && len(doc.documentRelationships.Relationships) == old(len(doc.documentRelationships.Relationships)) + 1 && doc.documentRelationships.Relationships[old(len(doc.documentRelationships.Relationships))].Type == imageRelType()
-//@ ensures err == nil && old(len(imageData.Data)) == 0 ==> doc.parts == old(doc.parts) && doc.documentRelationships == old(doc.documentRelationships) && len(doc.documentRelationships.Relationships) == old(len(doc.documentRelationships.Relationships)) + 1 && doc.documentRelationships.Relationships[old(len(doc.documentRelationships.Relationships))].Type == imageRelType()
-//@ ensures err == nil && old(len(imageData.Data)) > 0 ==> doc.documentRelationships.Relationships[old(len(doc.documentRelationships.Relationships))].Target == "media/" + imgFile(old(doc.nextImageID), ".png") || doc.documentRelationships.Relationships[old(len(doc.documentRelationships.Relationships))].Target == "media/" + imgFile(old(doc.nextImageID), ".jpeg") || doc.documentRelationships.Relationships[old(len(doc.documentRelationships.Relationships))].Target == "media/" + imgFile(old(doc.nextImageID), ".gif")
-//@ ensures err == nil && old(len(imageData.Data)) == 0 ==> doc.documentRelationships.Relationships[old(len(doc.documentRelationships.Relationships))].Target == "media/" + imgFile(old(doc.nextImageID), ".png") || doc.documentRelationships.Relationships[old(len(doc.documentRelationships.Relationships))].Target == "media/" + imgFile(old(doc.nextImageID), ".jpeg") || doc.documentRelationships.Relationships[old(len(doc.documentRelationships.Relationships))].Target == "media/" + imgFile(old(doc.nextImageID), ".gif")
-//@ ensures err == nil && old(len(imageData.Data)) > 0 ==> forall e string :: doc.documentRelationships.Relationships[old(len(doc.documentRelationships.Relationships))].Target == "media/" + imgFile(old(doc.nextImageID), e) ==> !old(has(doc.parts, imgPart(doc.nextImageID, e))) && has(doc.parts, imgPart(old(doc.nextImageID), e)) && (old(len(imageData.Data)) > 0 ==> doc.parts[imgPart(old(doc.nextImageID), e)] == old(imageData.Data))
-//@ ensures err == nil && old(len(imageData.Data)) == 0 ==> forall e string :: doc.documentRelationships.Relationships[old(len(doc.documentRelationships.Relationships))].Target == "media/" + imgFile(old(doc.nextImageID), e) ==> !old(has(doc.parts, imgPart(doc.nextImageID, e))) && has(doc.parts, imgPart(old(doc.nextImageID), e)) && (old(len(imageData.Data)) > 0 ==> doc.parts[imgPart(old(doc.nextImageID), e)] == old(imageData.Data))
-//@ ensures err == nil && old(len(imageData.Data)) > 0 ==> forall k string :: k != "word/media/" + doc.documentRelationships.Relationships[old(len(doc.documentRelationships.Relationships))].Target[6:] ==> has(doc.parts, k) == old(has(doc.parts, k)) && doc.parts[k] == old(doc.parts[k])
-//@ ensures err == nil && old(len(imageData.Data)) == 0 ==> forall k string :: k != "word/media/" + doc.documentRelationships.Relationships[old(len(doc.documentRelationships.Relationships))].Target[6:] ==> has(doc.parts, k) == old(has(doc.parts, k)) && doc.parts[k] == old(doc.parts[k])
-//@ ensures err == nil && old(len(imageData.Data)) > 0 ==> forall j int :: 0 <= j && j < old(len(doc.documentRelationships.Relationships)) ==> doc.documentRelationships.Relationships[j] == old(doc.documentRelationships.Relationships[j])
-//@ ensures err == nil && old(len(imageData.Data)) == 0 ==> forall j int :: 0 <= j && j < old(len(doc.documentRelationships.Relationships)) ==> doc.documentRelationships.Relationships[j] == old(doc.documentRelationships.Relationships[j])
-//@ ensures err == nil && old(len(imageData.Data)) > 0 ==> forall j int :: {old(doc.documentRelationships.Relationships[j])} 0 <= j && j < old(len(doc.documentRelationships.Relationships)) ==> old(doc.documentRelationships.Relationships[j].ID) != doc.documentRelationships.Relationships[old(len(doc.documentRelationships.Relationships))].ID
-//@ ensures err == nil && old(len(imageData.Data)) == 0 ==> forall j int :: {old(doc.documentRelationships.Relationships[j])} 0 <= j && j < old(len(doc.documentRelationships.Relationships)) ==> old(doc.documentRelationships.Relationships[j].ID) != doc.documentRelationships.Relationships[old(len(doc.documentRelationships.Relationships))].ID
-//@ ensures err == nil && old(len(imageData.Data)) > 0 ==> exists cx string, cy string :: {len(cx), len(cy)} drawingIs(result0.Runs[0].Drawing, doc.documentRelationships.Relationships[old(len(doc.documentRelationships.Relationships))].ID, itoa(old(doc.nextImageID)), cx, cy)
-//@ ensures err == nil && old(len(imageData.Data)) == 0 ==> exists cx string, cy string :: {len(cx), len(cy)} drawingIs(result0.Runs[0].Drawing, doc.documentRelationships.Relationships[old(len(doc.documentRelationships.Relationships))].ID, itoa(old(doc.nextImageID)), cx, cy)
+//@ ensures err == nil ==> (old(len(imageData.Data)) > 0 ==> (doc.nextImageID == old(doc.nextImageID) + 1 && mediaFresh(doc))) && (old(len(imageData.Data)) == 0 ==> (doc.nextImageID == old(doc.nextImageID) + 1 && mediaFresh(doc)))
+//@ ensures err == nil ==> (old(len(imageData.Data)) > 0 ==> (doc.parts == old(doc.parts) && doc.documentRelationships == old(doc.documentRelationships) && len(doc.documentRelationships.Relationships) == old(len(doc.documentRelationships.Relationships)) + 1 && doc.documentRelationships.Relationships[old(len(doc.documentRelationships.Relationships))].Type == imageRelType())) && (old(len(imageData.Data)) == 0 ==> (doc.parts == old(doc.parts) && doc.documentRelationships == old(doc.documentRelationships) && len(doc.documentRelationships.Relationships) == old(len(doc.documentRelationships.Relationships)) + 1 && doc.documentRelationships.Relationships[old(len(doc.documentRelationships.Relationships))].Type == imageRelType()))
+//@ ensures err == nil ==> (old(len(imageData.Data)) > 0 ==> (doc.documentRelationships.Relationships[old(len(doc.documentRelationships.Relationships))].Target == "media/" + imgFile(old(doc.nextImageID), ".png") || doc.documentRelationships.Relationships[old(len(doc.documentRelationships.Relationships))].Target == "media/" + imgFile(old(doc.nextImageID), ".jpeg") || doc.documentRelationships.Relationships[old(len(doc.documentRelationships.Relationships))].Target == "media/" + imgFile(old(doc.nextImageID), ".gif"))) && (old(len(imageData.Data)) == 0 ==> (doc.documentRelationships.Relationships[old(len(doc.documentRelationships.Relationships))].Target == "media/" + imgFile(old(doc.nextImageID), ".png") || doc.documentRelationships.Relationships[old(len(doc.documentRelationships.Relationships))].Target == "media/" + imgFile(old(doc.nextImageID), ".jpeg") || doc.documentRelationships.Relationships[old(len(doc.documentRelationships.Relationships))].Target == "media/" + imgFile(old(doc.nextImageID), ".gif")))
+//@ ensures err == nil ==> (old(len(imageData.Data)) > 0 ==> (forall e string :: doc.documentRelationships.Relationships[old(len(doc.documentRelationships.Relationships))].Target == "media/" + imgFile(old(doc.nextImageID), e) ==> !old(has(doc.parts, imgPart(doc.nextImageID, e))) && has(doc.parts, imgPart(old(doc.nextImageID), e)) && (old(len(imageData.Data)) > 0 ==> doc.parts[imgPart(old(doc.nextImageID), e)] == old(imageData.Data)))) && (old(len(imageData.Data)) == 0 ==> (forall e string :: doc.documentRelationships.Relationships[old(len(doc.documentRelationships.Relationships))].Target == "media/" + imgFile(old(doc.nextImageID), e) ==> !old(has(doc.parts, imgPart(doc.nextImageID, e))) && has(doc.parts, imgPart(old(doc.nextImageID), e)) && (old(len(imageData.Data)) > 0 ==> doc.parts[imgPart(old(doc.nextImageID), e)] == old(imageData.Data))))
+//@ ensures err == nil ==> (old(len(imageData.Data)) > 0 ==> (forall k string :: k != "word/media/" + doc.documentRelationships.Relationships[old(len(doc.documentRelationships.Relationships))].Target[6:] ==> has(doc.parts, k) == old(has(doc.parts, k)) && doc.parts[k] == old(doc.parts[k]))) && (old(len(imageData.Data)) == 0 ==> (forall k string :: k != "word/media/" + doc.documentRelationships.Relationships[old(len(doc.documentRelationships.Relationships))].Target[6:] ==> has(doc.parts, k) == old(has(doc.parts, k)) && doc.parts[k] == old(doc.parts[k])))
+//@ ensures err == nil ==> (old(len(imageData.Data)) > 0 ==> (forall j int :: 0 <= j && j < old(len(doc.documentRelationships.Relationships)) ==> doc.documentRelationships.Relationships[j] == old(doc.documentRelationships.Relationships[j]))) && (old(len(imageData.Data)) == 0 ==> (forall j int :: 0 <= j && j < old(len(doc.documentRelationships.Relationships)) ==> doc.documentRelationships.Relationships[j] == old(doc.documentRelationships.Relationships[j])))
+//@ ensures err == nil ==> (old(len(imageData.Data)) > 0 ==> (forall j int :: {old(doc.documentRelationships.Relationships[j])} 0 <= j && j < old(len(doc.documentRelationships.Relationships)) ==> old(doc.documentRelationships.Relationships[j].ID) != doc.documentRelationships.Relationships[old(len(doc.documentRelationships.Relationships))].ID)) && (old(len(imageData.Data)) == 0 ==> (forall j int :: {old(doc.documentRelationships.Relationships[j])} 0 <= j && j < old(len(doc.documentRelationships.Relationships)) ==> old(doc.documentRelationships.Relationships[j].ID) != doc.documentRelationships.Relationships[old(len(doc.documentRelationships.Relationships))].ID))
+//@ ensures err == nil ==> (old(len(imageData.Data)) > 0 ==> (exists cx string, cy string :: {len(cx), len(cy)} drawingIs(result0.Runs[0].Drawing, doc.documentRelationships.Relationships[old(len(doc.documentRelationships.Relationships))].ID, itoa(old(doc.nextImageID)), cx, cy))) && (old(len(imageData.Data)) == 0 ==> (exists cx string, cy string :: {len(cx), len(cy)} drawingIs(result0.Runs[0].Drawing, doc.documentRelationships.Relationships[old(len(doc.documentRelationships.Relationships))].ID, itoa(old(doc.nextImageID)), cx, cy)))
 //@ modifies Document.nextImageID, map:string:[]byte, Relationships.Relationships, []Relationship, Document.contentTypes, ContentTypes.Defaults, []Default, ImageInfo.Config, ImageConfig.AltText, ImageConfig.Title
 
 // ---- constructors establish the data invariants ---------------------------------------------------------------
@@ -291,3 +283,17 @@ package document
 //@   invariant forall k string :: (has(source.parts, k) <==> old(has(source.parts, k))) && source.parts[k] == old(source.parts[k])
 //@   invariant forall k string :: seen(k) && k != "word/document.xml" ==> has(dest.parts, k) && len(dest.parts[k]) == len(source.parts[k]) && freshArr(dest.parts[k]) && arr(dest.parts[k]) < allocBound() && (len(dest.parts[k]) > 0 ==> arr(dest.parts[k]) != 0)
 //@   invariant forall k string, i int :: seen(k) && k != "word/document.xml" && 0 <= i && i < len(source.parts[k]) ==> dest.parts[k][i] == old(source.parts[k][i])
+
+// ---- saving ---------------------------------------------------------------------------------------------------
+// serializeDocumentRelationships rewrites only the relationship part: every media part (and every other part) keeps
+// its bytes, no media name appears. (That the ids written are pairwise different — styles gets rId1 only if the list
+// does not use it — is not observable here: the list goes to xml.MarshalIndent, whose output is unconstrained.)
+//@ func (*Document).serializeDocumentRelationships
+//@ props C10, C02
+//@ requires d != nil && d.parts != nil && d.documentRelationships != nil
+//@ modifies map:string:[]byte
+//@ ensures has(d.parts, "word/_rels/document.xml.rels")
+//@ ensures forall k string :: k != "word/_rels/document.xml.rels" ==> has(d.parts, k) == old(has(d.parts, k)) && d.parts[k] == old(d.parts[k])
+//@ loop 1
+//@   invariant 0 <= #i && #i <= len(d.documentRelationships.Relationships) && unchangedHeap()
+//@   decreases len(d.documentRelationships.Relationships) - #i
